@@ -223,7 +223,12 @@ mina_verif::shape_impl!(V, V, VTimeline, [a: f32 = F32, b: f32 = F32, c: u8 = U8
 DUR_LITS = [("5s", 5, "s"), ("2s", 2, "s"), ("1s", 1, "s"), ("12s", 12, "s"), ("0.25s", 0.25, "s"), ("1.5s", 1.5, "s"),
             ("0.1s", 0.1, "s"), ("2.5s", 2.5, "s"), ("3.0s", 3.0, "s"), ("250ms", 250, "ms"), ("100ms", 100, "ms"),
             ("1_500ms", 1500, "ms"), ("33ms", 33, "ms"), ("2000ms", 2000, "ms"), ("7.5ms", 7.5, "ms"), ("500ms", 500, "ms"),
-            ("0.5s", 0.5, "s"), ("4_000ms", 4000, "ms"), ("1e3ms", 1000.0, "ms"), ("125ms", 125, "ms")]
+            ("0.5s", 0.5, "s"), ("4_000ms", 4000, "ms"), ("1e3ms", 1000.0, "ms"), ("125ms", 125, "ms"),
+            # literals whose number or value coincides with a builder default (1 s cycle, 0 s delay) in one unit only
+            ("1ms", 1, "ms"), ("1.0ms", 1.0, "ms"), ("1000ms", 1000, "ms"), ("1.0s", 1.0, "s"), ("1e0s", 1.0, "s"),
+            ("1_000ms", 1000, "ms"), ("10ms", 10, "ms"), ("60s", 60, "s"), ("0.001s", 0.001, "s"), ("1000s", 1000, "s")]
+# delays may also be zero
+DELAY_LITS = DUR_LITS + [("0s", 0, "s"), ("0ms", 0, "ms"), ("0.0s", 0.0, "s"), ("0.0ms", 0.0, "ms")]
 
 
 def lit_values(v, unit):
@@ -277,7 +282,7 @@ def gen_sentence_raw(rnd, exact_only=False, allow_default_kf=False):
         feats.append("dur=" + unit + ("+for" if pre else "") + ("" if isinstance(v, int) else "+float") + ("+_" if "_" in text else ""))
     if rnd.random() < 0.5:
         while True:
-            text, v, unit = rnd.choice(DUR_LITS)
+            text, v, unit = rnd.choice(DELAY_LITS)
             mac, reading, ex = lit_values(v, unit)
             if ex or not exact_only:
                 break
